@@ -29,10 +29,14 @@ EXTRACTS = ["C18"]
 THEOREMS = [
     "C18_discover_sound",
     "C18_discover_exact_partial",
+    "C18_discover_exact_partial_dec",
+    "C18_discover_exact_string",
+    "C18_discover_exact_general",
     "C18_prefix_sibling_refuted",
     "C18_root_always_eligible",
     "C18_discover_order_free_partial",
     "C18_perm_same_tree",
+    "C18_discover_perm_free_partial",
     "C18_root_marker_dirs_order_refuted",
     "C18_schedule_free_partial",
     "C18_exit_hang_refuted",
@@ -59,17 +63,22 @@ ASSUMPTIONS = [
     "the repository path is not the filesystem root '/'",
     "unreadable directories (os.walk onerror) and trees that change during the walk are outside the model",
     "thread scheduling is modelled as two arbitrary permutations (execution order of the workers, delivery order of results)",
+    "concurrent analyses do not interfere (false of the unchanged code: known finding C18-parallel-analysis-races; T2 serialises _extract_metadata)",
+    "project names are pairwise distinct in T2, so get_candidates(None) order is the order of _add_distribution calls",
 ]
-LEVEL_TEXT = ("Theorems over a Gallina model of _find_all_source_dirs (pruned os.walk on string paths) and of the two-pass "
-              "collection, for all trees, excluded paths, marker sets, analysis outcomes and schedules: soundness (everything "
-              "yielded is a project root by path components), exactness under two decidable guards, root eligibility, "
-              "independence of listing order (guarded) and of the worker schedule; two _refuted witnesses (an excluded path "
-              "removes a sibling sharing its name prefix; two marker directories in the root make the result depend on listing "
-              "order) replayed on /repo on every run.  Tied to /repo by generated tables + a literal shape check and by "
-              "differential execution on trees materialised on disk.")
-LEVEL_NOTE = ("Trusted: Coq kernel, extraction, OCaml driver, T1 reader, T2 harness; os.walk / ThreadPool semantics and the "
-              "analysis outcome per directory are validated or measured by T2 only; real thread interleavings are sampled, the "
-              "theorem covers all schedules of the model.")
+LEVEL_TEXT = ("Fourteen theorems over a Gallina model of _find_all_source_dirs (pruned os.walk on string paths) and of the two-pass, "
+              "optionally threaded collection, for ALL trees, excluded paths, marker sets, analysis outcomes and schedules: soundness "
+              "(everything offered is a project root by path components, unguarded), exactness inside two decidable guards, exact "
+              "characterisation of the code with character-prefix exclusion, root eligibility, independence of the listing order "
+              "(same-tree and permutation-at-any-depth forms, guarded), independence of the worker schedule (guarded), and three "
+              "_refuted witnesses replayed on /repo on every run: an excluded path removes a sibling sharing its name prefix; two "
+              "marker directories in the root make the result follow the listing order; a SystemExit in a pool worker hangs the "
+              "threaded constructor.  Tied to /repo by generated tables, a literal shape check of the three methods and differential "
+              "execution on trees materialised on disk (walk order, candidate sets and orders for parallelism 1 and 4).")
+LEVEL_NOTE = ("Trusted: Coq kernel, extraction, OCaml driver, T1 reader, T2 harness; os.walk / ThreadPool semantics are validated by T2 "
+              "only; the analysis outcome per directory is an oracle input measured on the real code; real thread interleavings are "
+              "sampled with _extract_metadata serialised by the harness (unserialised, the analysis code's process-wide monkey-"
+              "patching makes parallelism>1 nondeterministic: listed known finding), the theorem covers all schedules of the model.")
 TECHNIQUE = "Rocq proof over Gallina model (structural induction on rose trees, Permutation algebra) + extraction-based differential correspondence on on-disk trees"
 
 VBASE = "/B"          # virtual parent directory of every generated repository root
@@ -77,11 +86,12 @@ VBASE = "/B"          # virtual parent directory of every generated repository r
 # ---------------------------------------------------------------------------------------------
 # generator (independent of the code's tables on purpose: fixed pools)
 
-PLAIN = ["pkg", "lib", "app", "core", "src", "a", "ab", "abc", "a-b", "proj", "x", "x.y", "mod", "svc", "util"]
+PLAIN = ["pkg", "lib", "app", "core", "src", "a", "ab", "abc", "a-b", "proj", "x", "x.y", "mod", "svc", "util",
+         "my proj", "caf\u00e9"]
 SPECIALS = ["build", "dist", ".git", "venv", "node_modules", "__pycache__", "site-packages", ".eggs",
             ".github", ".svn", ".idea", "dist-packages", ".pytest_cache", ".mypy_cache"]
 SPECIAL_NEAR = ["builds", "Build", "venv2", ".gitx", "distx", "_build", "env", ".venv", "build.old"]
-TESTS = ["tests", "test", "x-tests", "x-test", "unit-tests", "integration-test"]
+TESTS = ["tests", "test", "x-tests", "x-test", "unit-tests", "integration-test", "a b-test", "\u0442-tests"]
 TESTS_NEAR = ["tests2", "mytests", "test-", "-test", "-tests", "Tests", "testing", "test_x", "a-tests-b"]
 CUSTOM_MARKERS = [".nomark", "SKIP", "MARK"]
 FILE_NEAR = ["README", "setup.pyc", "Setup.py", "setup.cfg.bak", "pyproject.tom", "__init__.pyc", "init.py", "SKIP.txt"]
@@ -600,7 +610,9 @@ def run_worker(ctx: "Ctx", cases: List[Dict[str, Any]], tag: str, par_mode: str 
     d.mkdir(parents=True, exist_ok=True)
     env = dict(os.environ)
     env["VERIF_REPO"] = str(common.REPO)
-    env["PYTHONHASHSEED"] = env.get("PYTHONHASHSEED", "0")
+    import zlib
+    # set(source_dirs) is iterated in hash order: a different (reproducible) seed per batch
+    env["PYTHONHASHSEED"] = str((zlib.crc32(tag.encode()) + ctx.seed) % 4096)
     # materialise here so that the two processes never race on creation
     for case in cases:
         casedir = d / ("c%d" % case["id"])
@@ -728,28 +740,47 @@ def oracle_roots(case: Dict[str, Any], tree: List[Any]) -> List[str]:
     return out
 
 
-def in_guard(case: Dict[str, Any], tree: List[Any]) -> Tuple[bool, str]:
-    """The decidable guards of C18_discover_exact_partial, recomputed on the case."""
+def guards(case: Dict[str, Any], tree: List[Any]) -> Tuple[bool, bool]:
+    """(root_guard, aligned): the decidable guards of C18_discover_exact_partial, recomputed on the case
+    description in Python (compared with the model's root_guardb / alignedb on every case)."""
     markers = {"__init__.py"} | set(case["markers"] or [])
     base = VBASE + "/" + case["root"]
     paths: List[str] = []
 
     def go(t, p):
-        paths.append(p)
         for s in t[2]:
+            paths.append(p + "/" + s[0])
             go(s, p + "/" + s[0])
     go(tree, base)
+    aligned = True
     for e in case["excl"]:
         ec = _comps(e)
         for p in paths:
             if p.startswith(e) and _comps(p)[:len(ec)] != ec:
-                return False, "prefix-sibling"
-        if e != "/" and "/" + "/".join(ec) != e:
-            return False, "unnormalised-excluded"
+                aligned = False
     root_excl0 = case["root"] in ORACLE_SPECIAL or any(base.startswith(e) for e in case["excl"])
-    if not root_excl0 and any(s[0] in markers for s in tree[2]):
+    root_guard = root_excl0 or not any(s[0] in markers for s in tree[2])
+    return root_guard, aligned
+
+
+def in_guard(case: Dict[str, Any], tree: List[Any]) -> Tuple[bool, str]:
+    rg, al = guards(case, tree)
+    if not al:
+        return False, "prefix-sibling"
+    if not rg:
         return False, "root-marker-dir"
     return True, ""
+
+
+def enc_guard_line(case: Dict[str, Any], tree: List[Any]) -> str:
+    bc = _comps(VBASE + "/" + case["root"])
+    ecs = [_comps(e) for e in case["excl"]]
+    user = case["markers"] or []
+    toks = [str(len(bc))] + [hx(c) for c in bc] + [str(len(ecs))]
+    for ec in ecs:
+        toks += [str(len(ec))] + [hx(c) for c in ec]
+    toks += [str(len(user))] + [hx(m) for m in user] + [enc_tree(tree)]
+    return "G " + " ".join(toks)
 
 
 # ---------------------------------------------------------------------------------------------
@@ -783,6 +814,8 @@ def compare_cases(ctx: "Ctx", cases: List[Dict[str, Any]], results: List[Dict[st
         com = enc_common(case, res["tree"])
         lines.append("W " + com)
         plan.append((i, "W"))
+        lines.append(enc_guard_line(case, res["tree"]))
+        plan.append((i, "G"))
         tbl = enc_table(case, res["analysis"])
         lines.append("D " + com + " " + tbl)
         plan.append((i, "D"))
@@ -828,6 +861,13 @@ def compare_cases(ctx: "Ctx", cases: List[Dict[str, Any]], results: List[Dict[st
         ctx.count("walked-dirs", len(walk_impl))
         guard_ok, why = in_guard(case, tree)
         ctx.count("guard:" + ("inside" if guard_ok else why))
+        g_py = "%d %d" % tuple(int(x) for x in guards(case, tree))
+        if g_py != ans["G"]:
+            ctx.mismatch("guards", _case_payload(case, res), g_py, ans["G"])
+        elif guard_ok and sorted(walk_model) != sorted(oracle_roots(case, tree)):
+            # inside the guards the model must agree with the statement read in Python (the theorem
+            # says so; this only protects against an oracle / encoding slip in the harness)
+            ctx.mismatch("oracle-vs-model-inside-guard", _case_payload(case, res), sorted(oracle_roots(case, tree)), sorted(walk_model))
         nontrivial = n_proj >= 2 and len(walk_impl) < n_proj and len(walk_impl) >= 1
         ctx.case(key=key, nontrivial=nontrivial,
                  sample=({"root": case["root"], "excl": case["excl"], "markers": case["markers"], "order": case["order"],
@@ -835,6 +875,7 @@ def compare_cases(ctx: "Ctx", cases: List[Dict[str, Any]], results: List[Dict[st
                           "cand1": res["cand1"][:2], "cand4": res["cand4"][:2]} if (i % 37 == 5) else None))
         if walk_impl != walk_model:
             ctx.mismatch("walk", _case_payload(case, res), walk_impl, walk_model)
+            ctx.extra.setdefault("_walk_disagree", []).append(i)
         # collected set for both parallelism settings against the model run on the observed schedule,
         # and (when nothing raised) against the sequential model `discover`
         dm = dec_collected(case, ans["D"])
@@ -873,8 +914,11 @@ def coq_tree(t: List[Any]) -> str:
 
 def coq_recheck(ctx: "Ctx", cases: List[Dict[str, Any]], results: List[Dict[str, Any]], limit: int) -> None:
     items = []
-    for case, res in zip(cases, results):
-        if "error" in res or len(items) >= limit:
+    first = ctx.extra.pop("_walk_disagree", [])[:40]     # every disagreeing case is re-evaluated in Coq
+    order = first + [i for i in range(len(cases)) if i not in set(first)]
+    for i in order:
+        case, res = cases[i], results[i]
+        if "error" in res or len(items) >= limit + len(first):
             continue
         sl = lambda xs: "[" + "; ".join(common.coq_string(x) for x in xs) + "]"
         expect = [vpath(case, p) for p in res["walk"]]
@@ -889,7 +933,7 @@ def coq_recheck(ctx: "Ctx", cases: List[Dict[str, Any]], results: List[Dict[str,
             "negb (if list_eq_dec string_dec (walk_paths b t e u) x then true else false) end) cases.",
             "Eval vm_compute in (List.length bad)."]
     ok, out = common.coq_eval("c18_cases", header, body)
-    ctx.extra["coq_recheck"] = {"cases": len(items), "ok": ok}
+    ctx.extra["coq_recheck"] = {"cases": len(items), "ok": ok, "disagreeing_cases_included": len(first)}
     if not ok or "= 0" not in out:
         ctx.mismatch("coq-vm_compute-recheck", {"n": len(items)}, "0 mismatches", out[-400:])
 
